@@ -381,6 +381,7 @@ theorem pushScalar_LR (ext : Ext) (he : ExtOK ext) (hf : FloatOK) : ∀ (b : B) 
   | .bytesView p ty v views buf, x, b', _, h, _ => by
     simp only [pushScalar] at h
     obtain ⟨bs, _, h2⟩ := (bind_ok _ _ _).1 h
+    obtain ⟨vp, _, h2⟩ := (bind_ok _ _ _).1 h2
     obtain ⟨v', _, h4⟩ := (bind_ok _ _ _).1 h2
     cases h4; simp only [LR]
   | .fixedSizeBinary p n len v buf cur, x, b', _, h, _ => by
